@@ -15,7 +15,7 @@ from . import probes
 from .jobs import REGISTRY, Collector, job
 from . import spec as S
 from .spec import jsonable
-from .sym import Opaque, Sym, same, short
+from .sym import TOUCHED, Opaque, Sym, Touchy, same, short
 
 
 class Built:
@@ -255,7 +255,9 @@ def gen_args(rng, prog, nonce):
     out = []
     for i in range(na):
         r = rng.random()
-        if r < 0.6:
+        if prog.get("touchy") and r < 0.3:
+            out.append(Touchy(Sym("arg", nonce, i)))  # an argument that may only be passed on
+        elif r < 0.6:
             out.append(Sym("arg", nonce, i))
         elif r < 0.75:
             out.append(Opaque(nonce, i))  # identity-sensitive, uncopyable argument
@@ -425,12 +427,27 @@ def one_program(col, pid, rng, feats, depth, pidx, reps=3, clauses=True, flavour
         if rep == reps - 1 and rng.random() < feats.get("fail_fn", 0.3):
             failing = rng.choice(sorted(all_fns(prog)))  # this decorated function raises whenever it is called, on both sides
             probes.State.fail_fns = {failing}
+        del TOUCHED[:]
         try:
             ref = probes.run_ref(lambda: renv[prog["name"]](*args))
             rcounts = Counter(probes.State.ref_counts)
+            ref_touched = list(TOUCHED)
+            del TOUCHED[:]
             res, log = run_twz(d, args, cfg)
         finally:
             probes.State.fail_fns = set()
+        touched = list(TOUCHED)
+        del TOUCHED[:]
+        if prog.get("touchy"):
+            col.counters["cases_with_values_that_may_only_be_passed_on"] += 1
+        if ref_touched:
+            col.counters["harness:plain_python_inspected_a_touchy_value"] += 1  # generator slip: not a verdict on tawazi
+            continue
+        if touched and (only is None or "value_only_to_be_passed_on_was_inspected" in only):
+            col.violation(pid, "value_only_to_be_passed_on_was_inspected", dict(
+                where=touched[:3], outcome=short(res[1], 200), args=short(args), source="\n".join(G.all_sources(prog))),
+                dict(rp, args=short(args), rep=rep, failing_function=failing))
+            continue
         probes.State.ref_counts = rcounts
         col.evaluations += 1
         rp2 = dict(rp, args=jsonable(args), rep=rep, failing_function=failing)
